@@ -127,6 +127,8 @@ def _events(P, e):
             if op[0] == "fjoin_block":
                 op[0] = "fjoin"
             ev.name, ev.args, ev.res = op[0], op[1:], " ".join(t[4:])
+            if ev.name == "fpoll" and ev.res.startswith("ready:"):
+                ev.name, ev.res = "fjoin", ev.res[6:]       # a `Ready` poll is the join
         else:
             ev.pc, ev.name, ev.args, ev.res = None, (t[3] if len(t) > 3 else "?"), t[4:], ""
         if ev.name == "panicking":
@@ -219,6 +221,8 @@ def _touch(ev, names, acq_sem, order=(), tlslock=None):
         return out
     if n in ("spawn", "fspawn", "scope_spawn", "unpark", "fabort", "fdetach"):
         return [(f"task#{a[0]}", "w")] if a else []
+    if n == "fpoll":
+        return [(f"task#{a[0]}", "w")] if a else []        # stores the poller's waker
     if n in ("join", "fjoin", "fis_finished"):
         return [(f"task#{a[0]}", "r")] if a else []
     if n == "park":
